@@ -262,3 +262,5 @@ func zzLogShape(path string) (bool, bool, int) {
 // "/struct:"), decided from constants and control flow of the real code, and are reported
 // without a native replay.
 func zzLockDiscipline() (bool, bool, bool, bool) { return true, true, true, true }
+
+func zzLockFDOwned() bool { return true }
